@@ -919,6 +919,13 @@ class IntrinsicCall(Call):
             # If this is an inquiry access (which doesn't actually access the
             # value) and we haven't explicitly requested them, ignore the
             # inquired variables, which are always the first argument.
+            # Any variables used in the index expressions of the inquired
+            # variables (e.g. 'n' in SIZE(a(1:n))) are still read.
+            for ref in self.arguments[0].walk(Reference, stop_type=Reference):
+                _, all_indices = ref.get_signature_and_indices()
+                for indices in all_indices:
+                    for index in indices:
+                        index.reference_accesses(var_accesses)
             for child in self.arguments[1:]:
                 child.reference_accesses(var_accesses)
         else:
